@@ -312,6 +312,12 @@ func parseMsgPipelineRcptCfg(globals map[string]interface{}, nodes []config.Node
 			return nil, config.NodeErr(node, "invalid directive")
 		}
 	}
+	if len(rcpt.targets) == 0 && rcpt.rejectErr == nil {
+		if len(nodes) != 0 {
+			return nil, config.NodeErr(nodes[0], "destination block should contain at least one deliver_to, reroute or reject directive")
+		}
+		return nil, fmt.Errorf("empty destination block, use 'reject' to reject messages")
+	}
 	return &rcpt, nil
 }
 
